@@ -50,6 +50,9 @@ func freeScenario(r *hx.Rand) *Scenario {
 		}
 		if r.Chance(1, 3) {
 			as = append(as, Actor{Kind: "setdeadline", Past: r.Chance(1, 3)})
+			if r.Chance(1, 3) {
+				as = append(as, Actor{Kind: "setdeadline"})
+			}
 		}
 		as = append(as, Actor{Kind: "probe"})
 	}
@@ -88,7 +91,14 @@ func runFree(sc *Scenario, r *hx.Rand) *Outcome {
 				serveEnds = true
 			}
 		case "setdeadline":
-			if a.Past && sc.DLSup {
+			// only when no other call can replace the passed deadline
+			others := false
+			for j, b := range sc.Actors {
+				if j != i && b.Kind == "setdeadline" {
+					others = true
+				}
+			}
+			if a.Past && sc.DLSup && !others {
 				serveEnds = true
 			}
 		}
@@ -128,6 +138,8 @@ func runFree(sc *Scenario, r *hx.Rand) *Outcome {
 			dl := time.Now().Add(time.Hour)
 			if a.Past {
 				dl = time.Now().Add(-time.Second)
+			} else if a.Zero {
+				dl = time.Time{}
 			}
 			err := rg.call(a, i, dl)
 			if a.Kind == "close" {
